@@ -108,7 +108,9 @@ def run(cfg, w):
     if kind != "flow":
         tab = dsm.sf_table(w, n, shape[1:], constrain=("range",), diag_min=(0.05 if kind.startswith("sdsm") else None))
         lifetime = dsm.AnyLifetime(dims=dims, table=tab)
-    st = dsm.build_stock(kind, dims, lifetime=lifetime, **_drive(w, kind, shape))
+    drv = _drive(w, kind, shape)
+    w.set_scale(*drv.values())
+    st = dsm.build_stock(kind, dims, lifetime=lifetime, **drv)
     st.compute()
     chain = kind.startswith("sdsm")
     if h == "conserve":
